@@ -12,6 +12,11 @@ calls on ONE grid object (relocating call first, then any); the driver builds th
 built with, makes the calls on it and judges every call against the BUILT coordinates; after every call (single calls too) the
 object is read again and the clause `input-grid-unchanged` demands position k still holds built coordinate k.
 
+Derived grids: a history may contain `derive` steps (arithmetic with a scalar, slicing of irregular grids, item assignment in
+place); the specification tracks the coordinates of the derived grid and every later call is judged at THOSE coordinates.
+Directions: project_grid is run for profile angles in every quadrant, negative and beyond a full turn; the direction of the
+projected line is pinned (exactly for multiples of 90 degrees, numerically otherwise).
+
 Lattice: coordinates, pixel scales, origins and profile centres are integer multiples of a unit tau (tau = 1/(4m) where a
 radial minimum of 2.5 / 0.75 is involved, so that the comparison |p| < r_min is exact); points the code computes (relocated
 coordinates, projected lines) are recorded in fixed point round(p / tau * S) and judged through the defining relation with the
@@ -782,6 +787,21 @@ def _derive(grid, op, gk, tau):
     return grid[a:]
 
 
+def _derive_units(cur, op, gk):
+    """gamma's own bookkeeping of a derivation, on exact lattice integers (the trace spec recomputes it: DeriveAll)."""
+    code, a, b, c = op
+    one = gk == "g1d"
+    if code == 1:
+        return [x + a for x in cur] if one else [[y + a, x + a] for y, x in cur]
+    if code == 2:
+        return [a * x for x in cur] if one else [[a * y, a * x] for y, x in cur]
+    if code == 3:
+        out = [x if one else list(x) for x in cur]
+        out[a] = b if one else [b, c]
+        return out
+    return cur[a:]
+
+
 def history_records(H, hid=1):
     """Build the grid ONCE, remember the coordinates it was built with, make the calls one after the other on that object;
     a `derive` step replaces the object by the one the caller derives from it (new coordinates, tracked by the spec)."""
@@ -789,8 +809,14 @@ def history_records(H, hid=1):
     base = dict(shared_fields, api="history", exact=True, tiny=[])
     gk, tau = H["gk"], H["tau"]
     grid = build_grid(base)
-    built = _snapshot(grid)
-    base_units = _exact_units(built, tau) if gk != "g1d" else []     # relocation is decided exactly: the grid must be ON the lattice
+    # everything is decided exactly: the fresh grid must be ON the lattice (a freshly built grid that is not is a harness error)
+    cur = _exact_units(_snapshot(grid), tau)
+    if gk == "g1d" and cur != [H["ox"] + (2 * j - (H["w"] - 1)) * (H["sx"] // 2) for j in H["u"]]:
+        raise core.MachineryError(f"1D pixel centres of {H} are not where the lattice puts them")
+    base_units = [list(p) for p in cur] if gk != "g1d" else []
+    # `built`: the coordinates the caller's grid holds BY CONSTRUCTION (built, then derived by the caller) -- computed on the
+    # lattice, never read back from the object, so that an object corrupted by an earlier call cannot excuse a later one
+    built = np.array(cur, dtype=float) * tau
     ops = []
     u, w = list(H["u"]), H["w"]
     recs = []
@@ -807,11 +833,13 @@ def history_records(H, hid=1):
                 new = _derive(grid, op, gk, tau)
                 if type(new) is not type(parent):
                     raise TypeError(f"derived object is a {type(new).__name__}, parent a {type(parent).__name__}")
-                grid, built = new, _snapshot(new)
+                grid = new
+                cur = _derive_units(cur, op, gk)
+                built = np.array(cur, dtype=float).reshape((-1,) if gk == "g1d" else (-1, 2)) * tau
                 ops = ops + [list(op)]
                 if op[0] == 4:
                     u, w = list(range(len(u) - op[1])), w - op[1]
-                rec["dcoords"] = _units_or_off(built, tau)
+                rec["dcoords"] = _units_or_off(_snapshot(new), tau)
                 rec["pafter"] = _grid_tags(parent, parent_built) if op[0] != 3 else []
             except Exception as e:  # noqa
                 rec["raised"], rec["exc"] = True, _exc(e)
@@ -1228,6 +1256,12 @@ def run(ctx):
                                                    "geometries": b["hist_geoms"], "calls_per_history": b["hist_len"],
                                                    "first_call": {k: list(v) for k, v in H_FIRST.items()}, "calls": {k: list(v) for k, v in H_APIS.items()},
                                                    "grid2d_over_sampling_sub_sizes": [1, 2, 4]},
+                  "histories_with_a_derive_step(call, derive, call...)": {"2d_frames": b["der_shapes"], "1d_and_irregular_lengths": b["der_lens"],
+                                                                          "geometries": b["der_geoms"],
+                                                                          "derivations(1 add a, 2 multiply by a, 3 g[a] = (b,c) in place, 4 g[a:])": [list(o) for o in b["der_ops"]]},
+                  "project_grid_profile_angles_in_quarter_turns(98 numeric, 99 no angle attribute)": b["angle_qs"],
+                  "project_grid_2d_frames": b["proj_shapes"],
+                  "numeric_angles": [round(a, 4) for a in ANGLES_NUMERIC] + ["random in [-360, 720]"],
                   "random_histories": 40 if quick else 600,
                   "random_instances": nrand, "random_max_side": 7 if quick else 9}
     insts = enumerate_instances(ctx, b)
@@ -1271,8 +1305,15 @@ def run(ctx):
         "that |p| < r_min is decided exactly); computed points are judged in fixed point with the rounding bound derived in Decorators.tla",
         "to_vector_yx on a 1D grid is outside the property (no 1D vector-field container exists; the library raises NotImplementedError); "
         "the container class of to_grid on a 1D grid and the mask of 1D results are not pinned by the statement and not checked",
-        "project_grid on a 2D grid: the number of points of the ray and its direction are free; the first point is the centre or one "
-        "pixel scale away from it (remove_projected_centre)",
+        "project_grid on a 2D grid: the number of points of the ray is free; the first point is the centre or one pixel scale away "
+        "from it (remove_projected_centre)",
+        "the DIRECTION of a projected line is pinned to the documented construction (+x half-line rotated clockwise by the profile's "
+        "angle + 90 degrees; 0 for to_array / to_grid on a 1D grid and for profiles without an angle): exactly, on the lattice, for multiples "
+        "of 90 degrees (the spec derives the direction from the integer quarter count); for other angles through a unit vector tabulated with "
+        "math.sin / math.cos, tolerance 2 fixed-point units",
+        "derived grids (g + a, a * g, -g, g[a:] for irregular grids, g[a] = v in place): the coordinates a call is judged at are computed on the "
+        "lattice from the built coordinates and the caller's derivations (by the harness for gamma, recomputed by the trace spec), never read "
+        "back from the objects; slicing a Grid2D / Grid1D is not used (the result keeps the full mask and is not a consistent grid)",
         "histories: one grid object (Grid2D with over-sampling sub size 1/2/4, Grid2DIrregular, Grid1D, ndarray) receives several decorated "
         "calls; expected coordinates of every call are the ones the object was built with, and the object is read again after every call",
         "the profile classes supply radial_grid_from (Euclidean radius) and the change of frame (shift + quarter turns), as profiles do downstream",
